@@ -718,6 +718,9 @@ class Ctx:
         m = re.fullmatch(r"(-?\d+)_([iu](?:8|16|32|64|128|size))", t)
         if m:
             return z3.BitVecVal(int(m.group(1)), INT_W[m.group(2)])
+        m = re.fullmatch(r"(-?[0-9.]+(?:[eE][-+]?[0-9]+)?)_?f(32|64)", t)
+        if m:
+            return z3.RealVal(m.group(1))
         if t == "()":
             return UNIT
         if t.startswith('"') and t.endswith('"'):
@@ -845,6 +848,11 @@ class Ctx:
             return r if op == "Eq" else z3.Not(r)
         if z3.is_bool(a) and op in ("BitAnd", "BitOr", "BitXor"):
             return {"BitAnd": z3.And, "BitOr": z3.Or, "BitXor": z3.Xor}[op](a, b)
+        if z3.is_arith(a) and z3.is_arith(b):
+            if op in ("Lt", "Le", "Gt", "Ge"):
+                return {"Lt": a < b, "Le": a <= b, "Gt": a > b, "Ge": a >= b}[op]
+            if op in ("Add", "Sub", "Mul"):
+                return {"Add": a + b, "Sub": a - b, "Mul": a * b}[op]
         if not (z3.is_bv(a) and z3.is_bv(b)):
             raise Inconclusive(f"binop {op} on {a!r},{b!r}")
         signed = False
